@@ -164,6 +164,12 @@ def check_C15(ex, sub=None):
             if not tr.accepted and not same_point(nx.inp, tr.inp):
                 out.append(V(P, "iterate-moved", "trial %d was rejected/failed but trial %d starts from another point" % (t, t + 1), sub, ctx))
                 break
+        if tr.used:
+            # the step equations of this trial, as built through the public step-solver hook
+            bad = [u for u in tr.used if u[0] != tr.dt]
+            if bad:
+                out.append(V(P, "dt-used", "trial %d was started with step size %r (1/lambda returned by the previous trial) but its step equations were built with %r" % (t, tr.dt, bad[0][0]), sub, ctx))
+                break
         if not tr.accepted:
             if not tr.lamb > 1.0 / tr.dt:
                 out.append(V(P, "no-shrink", "trial %d was rejected/failed at lambda=%r but returned lambda=%r" % (t, 1.0 / tr.dt, tr.lamb), sub, ctx))
@@ -228,6 +234,10 @@ def check_C16(ex, sub=None):
             if pol == "DualNorm" and rho > 10.0 * prev * (1 + 4 * EPS):
                 out.append(V(P, "dualnorm-growth", "penalty grew %r -> %r (more than tenfold) at trial %d" % (prev, rho, t), sub, ctx))
                 break
+        if tr.used and any(u[1] != rho for u in tr.used):
+            u = [u for u in tr.used if u[1] != rho][0]
+            out.append(V(P, "penalty-used", "trial %d was started with penalty %r but its step equations were built with %r" % (t, rho, u[1]), sub, ctx))
+            break
         if pol == "Constant" and rho != rho0:
             out.append(V(P, "constant", "constant policy but trial %d used %r, the first trial used %r" % (t, rho, rho0), sub, ctx))
             break
